@@ -624,7 +624,7 @@ def run(ck):
                                'scenario': {'prefill': prefill, 'invalidate': inv}}, **details))
     ck.count('scenarios(execute+invalidate)', len(scen_pool[:nscen]))
     # ---- consumers of distinct views are distinct tasks: sibling groups (hash oracle + real execute) ...
-    for gi in range(ck.n(24, 600)):
+    for gi in range(ck.n(24, 400)):
         specs = gen_sibling_group(ck.rng)
         how = ck.rng.choice(['pos', 'pos', 'kw', 'nested'])
         ck.count('hash-group:size', len(specs))
@@ -635,7 +635,7 @@ def run(ck):
         for what, details in problems:
             ck.violation(dict({'kind': 'impl-violation', 'what': what, 'world': depsgen.pyrepr(HASH_WORLD), 'how': how,
                                'hash_group': depsgen.pyrepr(specs)}, **details))
-    ck.count('hash-groups(execute)', ck.n(24, 600))
+    ck.count('hash-groups(execute)', ck.n(24, 400))
     # ... and random pairs (hash oracle only)
     npairs = 0
     for desc, group in hash_pool:
